@@ -1,9 +1,9 @@
-\* gating (thorough): witness characterisation, 3 threads
+\* gating (quick): outside the envelope (free Begins, window rebuilds) the mark passes a pending index only with a recorded witness
 SPECIFICATION SpecH
 CONSTANTS
- N = 3
+ N = 2
  MaxI = 4
- Scenarios <- ScenWitness3
+ Scenarios <- ScenWitness2Quick
  CountFirst = TRUE
  MaxPreempt = 1000
  Emit = FALSE
